@@ -20,6 +20,8 @@ def main():
             needs = json.dumps(needs)
         needs = str(needs).replace('\n', ' ').replace('|', '\\|')[:170]
         ok = 'yes' if m['confirmed']['ok'] else 'NO'
+        if m.get('superseded_by'):
+            ok = f"yes, at {m['base_commit']}; harmless since fix {', '.join(m['superseded_by'])}"
         rows.append(f"| `seeded/{name}` | {m['breaks_property']} | {ok} | {needs} | {', '.join(caught) or '-'}"
                     f"{(' (not: ' + ', '.join(missed) + ')') if missed else ''} | {NOTES.get(name, 'caught as built')} |")
     table = ('| change | breaks | confirmed | needs (author\'s words, abridged) | caught by | note |\n|---|---|---|---|---|---|\n' +
